@@ -14,8 +14,8 @@ func init() { streams["dualhandle"] = dualHandleStream }
 // HandlesCurrent): two live handles to the SAME nested container.  Per-handle state (root pointer,
 // mutableElementIndex, parent callback) is not shared between handles, so mutations through one
 // handle can leave the other stale.  C10 quantifies over "any number of live handles", so a failure
-// here is a violation of C10; the two known ways to fail carry fixed signatures (known findings
-// F2 / F2b) so that any OTHER failure is still reported.
+// here is a violation of C10; the known ways to fail carry fixed signatures (known findings
+// F2 / F2b / F2c) so that any OTHER failure is still reported.
 func dualHandleStream(cfg *Config) *hx.Stats {
 	st := hx.NewStats("dualhandle", cfg.Seed)
 	tic := func(a, b atree.TypeInfo) bool { return a == b }
@@ -98,6 +98,58 @@ func dualHandleStream(cfg *Config) *hx.Stats {
 			}
 			prog++
 		}
+		// --- F2c: the closure of a DETACHED child keeps the old handle object of its former parent (a map)
+		// alive; the program itself works with ONE handle per container at any time (it re-fetches the
+		// parent by lookup and goes on with the new handle only).  After the former parent's root has
+		// been replaced through the new handle (collapse of a two-level tree), the next mutation of
+		// the detached child - while it is small enough to be inlined, so that the callback does not
+		// return early - walks the stale root: C11 "further mutation through any handle to it ...; the
+		// detached container remains ... a value that can be mutated".
+		{
+			ps := hx.NewStorage(hx.NewLedger())
+			addr := hx.MkAddr(1)
+			grand, _ := atree.NewArray(ps, addr, hx.TI(1))
+			pm, _ := atree.NewMap(ps, addr, atree.NewDefaultDigesterBuilder(), hx.TI(2))
+			_ = grand.Append(pm)
+			va, _ := grand.Get(0)
+			pA := va.(*atree.OrderedMap)
+			n := 0
+			for pA.IsWithinSingleSlab() && n < 5000 { // (method of the handle: root is a data slab)
+				_, _ = pA.Set(hx.CompareKey, hx.HashInput, hx.TV{Size: 9, Pay: uint64(1000 + n)}, hx.TV{Size: 40, Pay: uint64(n)})
+				n++
+			}
+			// (several children under different keys: whether the stale walk reaches a removed slab
+			// depends on where the key's digest falls)
+			var kids []*atree.Array
+			for k := 0; k < 8; k++ {
+				child, _ := atree.NewArray(ps, addr, hx.TI(3))
+				k0 := hx.TV{Size: 9, Pay: uint64(1 + k)}
+				_, _ = pA.Set(hx.CompareKey, hx.HashInput, k0, child)
+				_, _, _ = pA.Remove(hx.CompareKey, hx.HashInput, k0) // child detached; its closure names pA
+				kids = append(kids, child)
+			}
+			vb, _ := grand.Get(0)
+			pB := vb.(*atree.OrderedMap) // the program's handle from now on
+			for i := 0; i < n && !pB.IsWithinSingleSlab(); i++ {
+				_, _, _ = pB.Remove(hx.CompareKey, hx.HashInput, hx.TV{Size: 9, Pay: uint64(1000 + i)})
+			}
+			st.Programs++
+			st.Ops += 2*n + 4
+			st.Hit("detached-child-closure-on-old-parent-handle")
+			bad := ""
+			for k, child := range kids {
+				if err := child.Append(hx.TV{Size: 5, Pay: 1}); err != nil && bad == "" {
+					bad = fmt.Sprintf("Append through the handle of detached child %d fails (%v) after having appended (count %d)", k, err, child.Count())
+				}
+			}
+			if err := atree.VerifyArray(grand, addr, hx.TI(1), tic, hx.HashInput, true); err != nil {
+				bad += "; outermost container no longer valid: " + err.Error()
+			}
+			if bad != "" {
+				viol(prog, "dual-handle:detached-child-closure-walks-stale-root-of-old-parent-handle", "a child detached from a map through handle A of the map, the map then re-fetched (handle B) and shrunk to a single slab through B: "+bad)
+			}
+			prog++
+		}
 		// --- control: the same histories through ONE handle must be fine (any failure here is new)
 		{
 			ps := hx.NewStorage(hx.NewLedger())
@@ -123,8 +175,8 @@ func dualHandleStream(cfg *Config) *hx.Stats {
 			prog++
 		}
 	}
-	st.Distinct = 3
-	st.Samples = append(st.Samples, "two handles from parent.Get(0) to one nested array, 1st grows it past a root split, 2nd is then used; two handles to one parent, child fetched through A, insert through B, child mutated; single-handle controls")
+	st.Distinct = 4
+	st.Samples = append(st.Samples, "two handles from parent.Get(0) to one nested array, 1st grows it past a root split, 2nd is then used; two handles to one parent, child fetched through A, insert through B, child mutated; child detached from a map through handle A, map re-fetched and collapsed to one slab through B, detached child mutated; single-handle controls")
 	atree.VerifSetThreshold(1024)
 	return st
 }
